@@ -219,6 +219,16 @@ fn gen_c03(sink: &mut Sink, tier: &str, seed: u64) {
         let b: Vec<u8> = (0..n).map(|i| (i * 7 % 128) as u8).collect();
         for m in ["bytes", "str"] { sink.call("enc", m, &json!({"m": m, "b": crate::abs::bytes(&b)})) }
     }
+    // the iterator encoders under every kind of size hint a well-behaved iterator can give
+    for _ in 0..(if thorough { 20000 } else { 1500 }) {
+        let n = match rng.gen_range(0..6) { 0 => 0, 1 => 23, 2 => 24, 3 => rng.gen_range(0..300), _ => rng.gen_range(0..6) };
+        let kind = if rng.gen() { "array" } else { "map" };
+        let xs: Vec<Value> = (0..(if kind == "array" { n } else { 2 * n })).map(|_| crate::abs::u64b(crate::cbgen::rand_arg(&mut rng))).collect();
+        let low = match rng.gen_range(0..4) { 0 => n, 1 => 0, _ => rng.gen_range(0..=n) };
+        let up: i64 = match rng.gen_range(0..4) { 0 => -1, 1 => n as i64, 2 => low.max(n) as i64, _ => (n + rng.gen_range(0..4)) as i64 };
+        sink.distinct_inputs += 1;
+        sink.call("encit", kind, &json!({"kind": kind, "xs": xs, "low": low, "up": up}));
+    }
     // random call sequences
     let alphabet: Vec<Value> = vec![json!({"m":"u8","neg":false,"mag":crate::abs::u64b(7)}), json!({"m":"i16","neg":true,"mag":crate::abs::u64b(300)}),
         json!({"m":"array","n":crate::abs::u64b(0)}), json!({"m":"array","n":crate::abs::u64b(1)}), json!({"m":"array","n":crate::abs::u64b(2)}),
